@@ -1115,7 +1115,9 @@ REPLAY_KEYS = {'depccg/printer/conll.py::_resolve_dependencies': 'depccg/printer
                'depccg/printer/xml.py::_process_tree': 'depccg/printer/xml.py::_process_tree',
                'depccg/printer/jigg_xml.py::_ConvertToJiggXML.process': 'depccg/printer/jigg_xml.py::_ConvertToJiggXML.process',
                'depccg/printer/auto.py::auto_of': 'depccg/printer/auto.py::auto_of',
-               'depccg/tools/reader.py::_AutoLineReader': 'depccg/tools/reader.py::_AutoLineReader'}
+               'depccg/tools/reader.py::_AutoLineReader': 'depccg/tools/reader.py::_AutoLineReader',
+               'depccg/tools/ja/reader.py::_JaCCGLineReader': 'depccg/tools/ja/reader.py::_JaCCGLineReader',
+               'depccg/printer/ja.py::ja_of': 'depccg/tools/ja/reader.py::_JaCCGLineReader'}
 
 
 def replay_views(records):
